@@ -215,6 +215,21 @@ Fixpoint p_exec (with_remove : bool) (st : pst) (ops : list (N * list N)) : pst 
   | op :: t => p_exec with_remove (fst (p_step with_remove st op)) t
   end.
 
+(* impl Clone for ZiporaTrie: a fresh trie with the same config, every key of self.keys() inserted,
+   then `new_trie.stats = self.stats.clone()` *)
+Definition p_clone (st : pst) : pst :=
+  let st' := fold_left p_insert (keys_nodes (p_nodes st)) p_empty in
+  mkP (p_nodes st') (p_len st).
+
+(* histories with clone steps (op code 8: trie = trie.clone()) *)
+Definition p_step_c (with_remove : bool) (st : pst) (op : N * list N) : pst * obs :=
+  if fst op =? 8 then (p_clone st, []) else p_step with_remove st op.
+Fixpoint p_run_c (with_remove : bool) (st : pst) (ops : list (N * list N)) : list obs :=
+  match ops with
+  | [] => []
+  | op :: t => let '(st', o) := p_step_c with_remove st op in o :: p_run_c with_remove st' t
+  end.
+
 (* ------------------------------------------------------------------ LOUDS storage as written *)
 (* contains_louds_internal: pos-based scan over [len][bytes] records *)
 Fixpoint louds_scan (fuel : nat) (data key : list N) : bool :=
@@ -320,8 +335,8 @@ Fixpoint c_run (nk : N) (ops : list (N * list N)) : list obs :=
 (* ------------------------------------------------------------------ dispatch used by the generated case files *)
 Definition run_cell (kind : N) (ops : list (N * list N)) : list obs :=
   match kind with
-  | 0 => p_run true p_empty ops        (* Patricia presets and aliases *)
-  | 1 => p_run false p_empty ops       (* compressed-sparse preset: same trie, no remove; keys compared sorted *)
+  | 0 => p_run_c true p_empty ops      (* Patricia presets and aliases *)
+  | 1 => p_run_c false p_empty ops      (* compressed-sparse preset: same trie, no remove; keys compared sorted *)
   | 2 => l_run (mkL [] 0) ops          (* LOUDS / space-optimised preset *)
   | _ => c_run 0 ops                   (* critical-bit / string-specialised preset *)
   end.
